@@ -862,9 +862,13 @@ class Object(base.Symbolic, metaclass=ObjectMeta):
       if deep or isinstance(v, base.Symbolic):
         v = base.clone(v, deep, memo)
       kwargs[k] = v
-    return self.__class__(allow_partial=self._allow_partial,
-                          sealed=self._sealed,
-                          **kwargs)  # pytype: disable=not-instantiable
+    cloned = self.__class__(allow_partial=self._allow_partial,
+                            sealed=self._sealed,
+                            **kwargs)  # pytype: disable=not-instantiable
+    # NOTE: the per-object accessor flag (`set_accessor_writable`) is kept, as
+    # it is by the clones of `pg.Dict` and `pg.List`.
+    cloned.set_accessor_writable(self._accessor_writable)
+    return cloned
 
   def _sym_missing(self) -> Dict[str, Any]:
     """Returns missing values."""
